@@ -259,6 +259,74 @@ class Forwarding:
                         out.setdefault(m, set()).add(("tf?",))
         return out
 
+    def _predicate_value(self, K: ClassInfo, prop: str, depth: int = 4):
+        """Value of a boolean property for instances of class K when it is decided by the class alone: 'return <constant>',
+        'return not self.<p>', 'return type(self).m != Base.m' (method identity through the MRO); None otherwise."""
+        if depth <= 0:
+            return None
+        f = K.lookup(prop)
+        if f is None or not f.is_property:
+            return None
+        body = [x for x in f.node.body if not (isinstance(x, ast.Expr) and isinstance(x.value, ast.Constant))]
+        if len(body) != 1 or not isinstance(body[0], ast.Return) or body[0].value is None:
+            return None
+        me = f.params()[0] if f.params() else "self"
+
+        def ev(e):
+            if isinstance(e, ast.Constant) and isinstance(e.value, bool):
+                return e.value
+            if isinstance(e, ast.UnaryOp) and isinstance(e.op, ast.Not):
+                v = ev(e.operand)
+                return None if v is None else (not v)
+            if isinstance(e, ast.Attribute) and isinstance(e.value, ast.Name) and e.value.id == me:
+                return self._predicate_value(K, e.attr, depth - 1)
+            if isinstance(e, ast.Compare) and len(e.ops) == 1 and isinstance(e.ops[0], (ast.NotEq, ast.IsNot, ast.Eq, ast.Is)):
+                def meth(x):
+                    # type(self).m  /  Base.m
+                    if isinstance(x, ast.Attribute):
+                        if isinstance(x.value, ast.Call) and isinstance(x.value.func, ast.Name) and x.value.func.id == "type" and \
+                                x.value.args and isinstance(x.value.args[0], ast.Name) and x.value.args[0].id == me:
+                            return K.lookup(x.attr)
+                        if isinstance(x.value, ast.Name):
+                            r = self.prog.resolve_name(f.module, x.value.id)
+                            if r and r[0] == "class":
+                                return r[1].lookup(x.attr)
+                    return None
+                a, b = meth(e.left), meth(e.comparators[0])
+                if a is None or b is None:
+                    return None
+                same = a.node is b.node
+                return same if isinstance(e.ops[0], (ast.Eq, ast.Is)) else (not same)
+            if isinstance(e, ast.BoolOp):
+                vals = [ev(v) for v in e.values]
+                if isinstance(e.op, ast.And):
+                    return False if any(v is False for v in vals) else (True if all(v is True for v in vals) else None)
+                return True if any(v is True for v in vals) else (False if all(v is False for v in vals) else None)
+            return None
+        return ev(body[0].value)
+
+    def _derived_from(self, C: ClassInfo, attr: str) -> Set[str]:
+        """attributes that a constructor of C's chain assigns from an expression mentioning self.<attr> (transitively)"""
+        stores = []
+        for owner, fi_ in self.own.types.init_chain(C):
+            me = fi_.params()[0] if fi_.params() else "self"
+            for st in ast.walk(fi_.node):
+                if isinstance(st, ast.Assign):
+                    for t in st.targets:
+                        if isinstance(t, ast.Attribute) and isinstance(t.value, ast.Name) and t.value.id == me:
+                            used = {y.attr for y in ast.walk(st.value) if isinstance(y, ast.Attribute)
+                                    and isinstance(y.value, ast.Name) and y.value.id == me}
+                            stores.append((t.attr, used))
+        out = {attr}
+        changed = True
+        while changed:
+            changed = False
+            for tgt, used in stores:
+                if tgt not in out and used & out:
+                    out.add(tgt)
+                    changed = True
+        return out - {attr}
+
     def access_of(self, fa: FA, e: ast.AST, at: int) -> Optional[Member]:
         """Which owned member does the receiver expression denote?"""
         t = fa.sym.term(e, at)
@@ -303,35 +371,68 @@ class Forwarding:
         """(edges to remove, descriptions of too-narrow guards).  An ``isinstance(<member>, G)`` test
         whose G admits every needed class cannot be False for an object that needs the hook."""
         removed, narrow = [], []
+        if not hasattr(self, "_undecided_guards"):
+            self._undecided_guards = []
         for n, nd in fa.cfg.nodes.items():
             if nd.kind != "test":
                 continue
             atom = _guard_atom(fa, n, nd.ast)
             if atom is None:
                 continue
-            pol, call = atom
-            if len(call.args) != 2:
-                continue
-            m = self.access_of(fa, call.args[0], n)
-            if m != member:
-                continue
-            classes = self.own.guard_classes(fa.fi, call.args[1])
-            if classes is None:
-                continue
-            missing = [k for k in needed if not any(g in k.mro() for g in classes)]
-            if not missing:
-                # an object that needs the hook always passes the isinstance test
-                tgt = fa.cfg.out_edge(n, not pol)
+            conj = atom[1] if atom[0] == "all" else [atom]
+            verdicts = []  # per conjunct: True (always passes for needed classes) | ("narrow", ..) | None (not about the member)
+            for pol, call in conj:
+                if isinstance(call, ast.Attribute):
+                    m = self.access_of(fa, call.value, n)
+                    if m != member:
+                        verdicts.append(None)
+                        continue
+                    vals = {k.name: self._predicate_value(k, call.attr) for k in needed}
+                    if all(v is pol for v in vals.values()):
+                        verdicts.append(True)
+                    elif any(v is (not pol) for v in vals.values()):
+                        bad_ = [k_ for k_, v in vals.items() if v is (not pol)]
+                        verdicts.append(("narrow", [f".{call.attr}"], bad_))
+                    else:
+                        verdicts.append(("unknown", call.attr))
+                    continue
+                if len(call.args) != 2:
+                    verdicts.append(None)
+                    continue
+                m = self.access_of(fa, call.args[0], n)
+                if m != member:
+                    verdicts.append(None)
+                    continue
+                classes = self.own.guard_classes(fa.fi, call.args[1])
+                if classes is None:
+                    verdicts.append(None)
+                    continue
+                missing = [k for k in needed if not any(g in k.mro() for g in classes)]
+                if pol and not missing:
+                    verdicts.append(True)
+                elif not pol and not missing and atom[0] != "all":
+                    verdicts.append(True)
+                else:
+                    verdicts.append(("narrow", [g.name for g in classes], [k.name for k in missing]))
+            if verdicts and all(v is True for v in verdicts):
+                # an object that needs the hook always passes the test
+                pol0 = True if atom[0] == "all" else atom[0]
+                tgt = fa.cfg.out_edge(n, not pol0)
                 if tgt is not None:
-                    removed.append((n, tgt, not pol))
+                    removed.append((n, tgt, not pol0))
             else:
-                narrow.append((n, [g.name for g in classes], [k.name for k in missing]))
+                for v in verdicts:
+                    if isinstance(v, tuple) and v[0] == "narrow":
+                        narrow.append((n, v[1], v[2]))
+                    elif isinstance(v, tuple) and v[0] == "unknown":
+                        self._undecided_guards.append((n, v[1]))
         return removed, narrow
 
     def forwarding_nodes(self, C: ClassInfo, fi: FuncInfo, fa: FA, member: Member, hooks: Set[str],
                          needed: List[ClassInfo], arg_ok: Optional[Callable], depth: int) -> Tuple[Set[int], list]:
         nodes: Set[int] = set()
         self._delegates = set()
+        self._unknown_receivers = []
         notes = []
         for n, call in fa.calls():
             f = call.func
@@ -353,7 +454,14 @@ class Forwarding:
                         nodes.add(n)
                     else:
                         notes.append(f"call at line {fa.line(n)} does not pass the received argument on")
+                        if call.args and isinstance(call.args[0], ast.Name) and call.args[0].id not in fi.params():
+                            # the argument is a local (an element of a list built from the received one, ...): not traced
+                            self._unknown_receivers.append((n, ast.unparse(call)[:50]))
                     continue
+                if m is None and not (isinstance(f.value, ast.Name) and f.value.id == fa.self_name):
+                    # the hook is called on something whose relation to the members is not recognised (an element of a
+                    # pre-computed / zipped / filtered collection)
+                    self._unknown_receivers.append((n, ast.unparse(f.value)[:50]))
             # self.other(...) that forwards
             if isinstance(f.value, ast.Name) and f.value.id == fa.self_name and depth < 4:
                 tgt = C.lookup(f.attr)
@@ -432,6 +540,21 @@ class Forwarding:
                    f"{', '.join(miss[:6])}{'...' if len(miss) > 6 else ''}"
         if notes:
             why += "; " + "; ".join(notes)
+        unk = getattr(self, "_unknown_receivers", [])
+        if not unk and depth == 0 and member.kind in ("elem", "elem_attr"):
+            # the hook is forwarded to the elements of another attribute that the constructor derives from this member's list
+            # (a pre-computed / filtered copy): whether that copy holds every element that needs the hook is not decided here
+            derived = self._derived_from(C, member.attr)
+            for n_, call_ in fa.calls():
+                f_ = call_.func
+                if isinstance(f_, ast.Attribute) and f_.attr in hooks:
+                    m_ = self.access_of(fa, f_.value, n_)
+                    if m_ is not None and m_ != member and m_.attr in derived:
+                        unk = [(n_, f"the elements of self.{m_.attr}")]
+                        break
+        if unk and depth == 0:
+            return None, (f"not decided: {fi.qualname} forwards the hook to {unk[0][1]} (line {fa.line(unk[0][0])}), whose relation to "
+                          f"{member} is not recognised")
         return False, why
 
 
@@ -495,6 +618,10 @@ def _guard_atom(fa: FA, n: int, test: ast.AST):
         if isinstance(e, ast.Call) and isinstance(e.func, ast.Name) and e.func.id == "isinstance":
             tv = eval_truth(fa.sym.term(e, n), fa.assume)
             return tv if tv is not None else (True, e)
+        if isinstance(e, ast.Attribute) and isinstance(e.ctx, ast.Load):
+            # a predicate property of some object (decided per class by the caller): member.requires_rng
+            tv = eval_truth(fa.sym.term(e, n), fa.assume)
+            return tv if tv is not None else (True, e)
         if isinstance(e, ast.UnaryOp) and isinstance(e.op, ast.Not):
             r = red(e.operand)
             if isinstance(r, bool):
@@ -504,7 +631,7 @@ def _guard_atom(fa: FA, n: int, test: ast.AST):
             is_and = isinstance(e.op, ast.And)
             atoms = []
             for v in e.values:
-                r = red(v) if isinstance(v, (ast.BoolOp, ast.UnaryOp, ast.Call)) else None
+                r = red(v) if isinstance(v, (ast.BoolOp, ast.UnaryOp, ast.Call, ast.Attribute)) else None
                 if r is None:
                     tv = eval_truth(fa.sym.term(v, n), fa.assume)
                     if tv is None:
@@ -519,6 +646,8 @@ def _guard_atom(fa: FA, n: int, test: ast.AST):
                 return is_and
             if len(atoms) == 1:
                 return atoms[0]
+            if is_and and all(isinstance(a, tuple) and len(a) == 2 and isinstance(a[0], bool) for a in atoms):
+                return ("all", atoms)  # a conjunction of several such atoms
             return None
         tv = eval_truth(fa.sym.term(e, n), fa.assume)
         return tv
